@@ -75,7 +75,9 @@ def _cflags():
     # interpreter CFLAGS as distutils would use them (minus -g), then setup.py's own
     base = "-fno-strict-overflow -Wsign-compare -DNDEBUG -g0 -O3 -Wall -fPIC"
     ours = "-std=c++11 -Werror=return-type -Werror=narrowing -UNDEBUG"
-    return f"{base} -I{REPO}/src/ -I{inc} {ours}".split()
+    # paths relative to the repository root (the compiler runs with cwd=REPO) so that the
+    # object cache is shared between /repo and scratch worktrees
+    return f"{base} -Isrc/ -I{inc} {ours}".split()
 
 
 def _check_setup_py():
@@ -148,7 +150,7 @@ def _compile(src_path, key_extra, hh, flags):
     if not out.exists():
         out.parent.mkdir(parents=True, exist_ok=True)
         tmp = out.with_suffix(f".tmp{os.getpid()}.o")
-        _run(["g++"] + flags + ["-c", str(src_path), "-o", str(tmp)])
+        _run(["g++"] + flags + ["-c", str(src_path), "-o", str(tmp)], cwd=str(REPO))
         os.replace(tmp, out)
     return key, out
 
@@ -256,7 +258,7 @@ def ensure(verbose=False, jobs=16):
             if src is None:
                 cpp = _cythonize(pyx, pxdh)
                 # the generated file includes headers relative to whatshap/ (cpp.pxd: "../src/..")
-                fl = flags + [f"-I{REPO}/whatshap", f"-I{REPO}/" + str(Path(pyx).parent)]
+                fl = flags + ["-Iwhatshap", "-I" + str(Path(pyx).parent)]
                 return mod, _compile(cpp, "cy:" + pyx, hh, fl)
             return mod, _compile(src, "", hh, flags)
 
